@@ -139,7 +139,7 @@ def ops_of(history, recs):
     return ops
 
 
-def judge_programs(ck, progs, props, tag, describe=None, max_report=12, confirm=True):
+def judge_programs(ck, progs, props, tag, describe=None, max_report=12, confirm=True, confirm_program=False, env_extra=None):
     """Trace validation of everything the programs produced; every verdict is
     confirmed by re-running its case in a fresh process before it is reported.
     Returns judge stats."""
@@ -173,11 +173,22 @@ def judge_programs(ck, progs, props, tag, describe=None, max_report=12, confirm=
         if not known and confirm:
             if reported >= max_report:
                 continue
-            c2 = dict(case)
-            c2["id"] = "0:0"
-            evs = [e for e in run_driver(p.build, {"cases": [c2]}, tag + "_confirm") if e.get("ev") != "DriverDied"]
-            v2, _ = judge(evs, props, tag=tag + "c", chunks=1)
-            conj2 = sorted({v["conjunct"] for v in v2 if v["prop"] in props})
+            if confirm_program:
+                # the verdict depends on the process history (buffer pools): replay the program's whole job in a fresh process
+                cs = []
+                for j, c in enumerate(p.cases):
+                    c = dict(c)
+                    c["id"] = "0:%d" % j
+                    cs.append(c)
+                evs = [e for e in run_driver(p.build, {"cases": cs}, tag + "_confirm", timeout=2400, env_extra=env_extra) if e.get("ev") != "DriverDied"]
+                v2, _ = judge(evs, props, tag=tag + "c")
+                conj2 = sorted({v["conjunct"] for v in v2 if v["prop"] in props and v["case"] == "0:%d" % ci})
+            else:
+                c2 = dict(case)
+                c2["id"] = "0:0"
+                evs = [e for e in run_driver(p.build, {"cases": [c2]}, tag + "_confirm", env_extra=env_extra) if e.get("ev") != "DriverDied"]
+                v2, _ = judge(evs, props, tag=tag + "c", chunks=1)
+                conj2 = sorted({v["conjunct"] for v in v2 if v["prop"] in props})
             if not set(conj) & set(conj2):
                 raise HarnessError("verdict %s on %s not reproduced in a fresh process (got %s)" % (conj, key, conj2))
             reported += 1
